@@ -6,7 +6,7 @@ use serde_json::{json, Value as J};
 use std::path::PathBuf;
 
 pub fn write_replay(ctx: &Ctx, prop: &str, index: u64, min_case: &Case, v: &Violation, orig: &Case) -> PathBuf {
-    let dir = ctx.verif_dir.join("replays").join(prop);
+    let dir = crate::engine::out_dir(ctx).join("replays").join(prop);
     let _ = std::fs::create_dir_all(&dir);
     let path = dir.join(format!("{}-{}.json", ctx.seed, index));
     // event log of the minimised case, for the reader
